@@ -7,6 +7,7 @@ import (
 	"errors"
 	"fmt"
 	"io"
+	"math"
 	"math/rand"
 	"net/http"
 	"net/http/httptest"
@@ -147,7 +148,7 @@ type c08Handler struct {
 }
 
 func c08(run *ev.Run) int {
-	run.SetRule("negotiation cases = handler registration list x client registration list (all ordered subsets of {zz-rev,Zz-Xor,zz-len}, with gzip re-registered nowhere / last / in the middle) x send-compression in client set + none x client and handler compress-min in {0,1,100,1024} x message sizes {min-1,min,min+1} x 3 protocols x 2 codecs x 4 kinds (seeded sample; thorough also walks every handler-list x client-list pair); isolation histories = corrupt (bit flip, truncation, bad CRC/ISIZE/magic, trailing garbage) and valid compressed calls on shared pools, sequential with GOMAXPROCS=1 and concurrent with GC off, on the handler side and on the client side; peer terminators = Connect end-of-stream messages (flags 0x03) and gRPC-Web trailer frames (0x81) compressed by a conformant peer with gzip or a custom algorithm; paired history = corrupt calls whose compression header is rejected by Reset itself, then valid calls whose instrumented decompressors wait for each other inside Read (so that they own their pooled objects at the same moment); oracle = negotiation model + lossless + threshold + instrumented (de)compressor discipline + double-release table for pooled compressors/decompressors (hook) + every valid call succeeds with its own payload; distinct by (handler list, client list, send, protocol, kind, size class)")
+	run.SetRule("negotiation cases = handler registration list x client registration list (all ordered subsets of {zz-rev,Zz-Xor,zz-len}, with gzip re-registered nowhere / last / in the middle) x send-compression in client set + none x client and handler compress-min in {0,1,100,1024} x read limit {none, MaxInt} on either side x message sizes {min-1,min,min+1} x 3 protocols x 2 codecs x 4 kinds (seeded sample; thorough also walks every handler-list x client-list pair); isolation histories = corrupt (bit flip, truncation, bad CRC/ISIZE/magic, trailing garbage) and valid compressed calls on shared pools, sequential with GOMAXPROCS=1 and concurrent with GC off, on the handler side and on the client side; peer terminators = Connect end-of-stream messages (flags 0x03) and gRPC-Web trailer frames (0x81) compressed by a conformant peer with gzip or a custom algorithm; paired history = corrupt calls whose compression header is rejected by Reset itself, then valid calls whose instrumented decompressors wait for each other inside Read (so that they own their pooled objects at the same moment); oracle = negotiation model + lossless + threshold + instrumented (de)compressor discipline + double-release table for pooled compressors/decompressors (hook) + every valid call succeeds with its own payload; distinct by (handler list, client list, send, protocol, kind, size class)")
 	stats := map[string]*svc.AlgoStats{}
 	for _, n := range svc.AlgoNames {
 		stats[n] = &svc.AlgoStats{}
@@ -173,6 +174,10 @@ func c08(run *ev.Run) int {
 		}
 		reg := svc.NewRegistry()
 		opts := append(l.handlerOpts(stats), connect.WithCompressMinBytes(min))
+		if (len(l)+min)%2 == 1 {
+			// every other handler set: a read limit at the top of the integer range
+			opts = append(opts, connect.WithReadMaxBytes(math.MaxInt))
+		}
 		hs := svc.Handlers(reg, opts...)
 		h := &c08Handler{list: l, min: min, reg: reg, lb: &wire.Loopback{Handler: svc.Mux(hs)}}
 		hcache[k] = h
@@ -249,6 +254,11 @@ func c08Negotiate(run *ev.Run, stats map[string]*svc.AlgoStats, h *c08Handler, c
 	copts = append(copts, connect.WithCompressMinBytes(cmin))
 	if send != "" {
 		copts = append(copts, connect.WithSendCompression(send))
+	}
+	if len(key)%3 == 0 {
+		// one case in three: a read limit at the top of the integer range on the
+		// client ("effectively unlimited"); decompression must not notice it
+		copts = append(copts, connect.WithReadMaxBytes(math.MaxInt))
 	}
 	cs := svc.NewClientSet(h.lb, "http://verif.local", copts...)
 	reqMsg := sizedMsg(codec, 11, cmin, sizeSel)
